@@ -202,6 +202,12 @@ func init() {
 		},
 		"verifStepBudget": func(th *thread, caller *frame, fn *ssa.Function, args []value, site ssa.Instruction) value {
 			th.m.maxSteps = th.m.steps + int(th.m.argInt(args[0], "budget"))
+			th.m.hangCheck = true
+			return nil
+		},
+		"verifStepBudgetEnd": func(th *thread, caller *frame, fn *ssa.Function, args []value, site ssa.Instruction) value {
+			th.m.maxSteps = th.m.world.cfg.maxSteps
+			th.m.hangCheck = false
 			return nil
 		},
 		"verifSteps": func(th *thread, caller *frame, fn *ssa.Function, args []value, site ssa.Instruction) value {
